@@ -46,6 +46,7 @@ class Pool:
         self.varname_by_id: Dict[int, str] = {}
         self.queries: Dict[str, Any] = {}
         self.streams: Dict[str, Any] = {}      # var name -> OneShot / LoggingCollection (pull logs)
+        self.built_conds: Dict[str, list] = {}
         self.kind_override = domain_kinds       # twin pools use plain list copies
         self.stream_faults = stream_faults or {}
         try:
@@ -172,7 +173,12 @@ class Pool:
         mode = qs.get("mode", "query")
         ctx = rule_mode() if mode == "rule" else symbolic_mode()
         with ctx:
-            conds = [self.cond(c) for c in qs.get("conds", [])]
+            if qs.get("conds_from") and qs["conds_from"] in self.built_conds:
+                # the SAME condition objects as another query of the pool (cond = or_(...) used in two queries)
+                conds = self.built_conds[qs["conds_from"]]
+            else:
+                conds = [self.cond(c) for c in qs.get("conds", [])]
+            self.built_conds[qs["id"]] = conds
             if qs.get("head"):
                 cls = W.CLASSES[qs["head"][0]]
                 head = cls(**{k: self.term(t) for k, t in qs["head"][1].items()})
